@@ -68,6 +68,15 @@ class Expander:
         n = t.num_vars()
         cs = [_fresh(t.var_name(k), t.var_sort(k)) for k in range(n)]
         body = z3.substitute_vars(t.body(), *reversed(cs))
+        if t.is_lambda() and n == 1 and any(t.var_sort(0) == s for s in self.universe):
+            # lambda over a finite sort: the array holding, at every element of the universe, the body at that element
+            # (the value at the first element also serves outside the universe, which the restricted structure ignores)
+            dom = next(u for s, u in self.universe.items() if t.var_sort(0) == s)
+            vals = [self.tr(z3.substitute(body, (cs[0], v))) for v in dom]
+            a = z3.K(t.var_sort(0), vals[0])
+            for v, val in zip(dom[1:], vals[1:]):
+                a = z3.Store(a, v, val)
+            return a
         if t.is_lambda():
             b = self.tr(body)
             self._side(b, cs)
